@@ -516,8 +516,9 @@ def run(ctx):  # noqa: F811
     from rules import c10 as _c10, c18 as _c18
 
     _c01.r01_13_is_terminal(ctx)  # which blocks need no fall-through branch (shared with C01)
-    from rules.lowering_sem import r01_15_pipeline
+    from rules.lowering_sem import r01_15_pipeline, r04_9_whole_program
 
+    r04_9_whole_program(ctx)
     r01_15_pipeline(ctx)  # composed passes: every branch names a defined label, no execution runs off the end (shared with C01)
     _c18.r18_1_annotations_delegate(ctx)  # annotation text reaches the program only as one-line comment ops (shared with C18)
     _c18.r18_3_single_line_text(ctx)
